@@ -229,6 +229,29 @@ pub fn run(rep: &mut Report, tier: Tier) {
         check_js(&v, &mut t);
         check_sj(&rv_to_sj(&v), &mut t);
     }
+    // the reserved number token is ordinary data for these conversions: a serde_json object
+    // that looks like serde_json's own arbitrary-precision number encoding must stay an object
+    for payload in [serde_json::json!("1.5"), serde_json::json!("0"), serde_json::json!("-12e3"), serde_json::json!("x"), serde_json::json!(1.5), serde_json::json!(null), serde_json::json!(["1"])] {
+        let mut one = serde_json::Map::new();
+        one.insert(crate::c16::TOKEN.to_string(), payload.clone());
+        let one = serde_json::Value::Object(one);
+        let mut two = serde_json::Map::new();
+        two.insert("a".to_string(), serde_json::json!(1));
+        two.insert(crate::c16::TOKEN.to_string(), payload.clone());
+        let two = serde_json::Value::Object(two);
+        for j in [one.clone(), two.clone(), serde_json::json!([one.clone(), 1]), serde_json::json!({"k": one.clone(), "l": [two.clone()]})] {
+            check_sj(&j, &mut t);
+        }
+        // and from the json-syntax side
+        let payload_rv = match &payload {
+            serde_json::Value::String(s) => RV::str(s),
+            serde_json::Value::Null => RV::Null,
+            serde_json::Value::Number(_) => RV::num("1.5"),
+            _ => RV::Arr(vec![RV::str("1")]),
+        };
+        check_js(&RV::Obj(vec![(crate::c16::TOKEN.to_string(), payload_rv.clone())]), &mut t);
+        check_js(&RV::Arr(vec![RV::Obj(vec![("a".into(), RV::num("1")), (crate::c16::TOKEN.to_string(), payload_rv)])]), &mut t);
+    }
     rep.absorb(t);
     rep.tally.sample(json!({"serde_json_number": "9.999999999999999e91", "json_syntax_spelling": "100e90"}));
     rep.bounds = json!({"f64_patterns": 2047 * nm * 2, "number_spellings": nsp, "max_spelling_length": l, "structure_values": nv, "structure_max_nodes": n, "out_of_range_magnitudes": 9, "pumped_values": np});
